@@ -66,6 +66,7 @@ type Contract struct {
 	Props    []string
 	Inline   bool // never use this contract at call sites: inline instead
 	Assumes  []Clause
+	EntryAssumes []Clause // assumed at entry when the body is verified; NOT an obligation at call sites (modelling conventions)
 	NoBody   bool // contract is assumed, body not verified (trusted)
 	Reads    []string
 	ObjInv   []Clause
@@ -290,6 +291,9 @@ func (cs *ContractSet) parseFile(file, pkg string) error {
 			case "assume":
 				curLoop = nil
 				newClause(&cur.Assumes)
+			case "entry-assume":
+				curLoop = nil
+				newClause(&cur.EntryAssumes)
 			case "must_fail":
 				curLoop = nil
 				newClause(&cur.MustFail)
